@@ -214,6 +214,12 @@ class SymSpec(object):
             return idx[0]
         return symnp.mkint(symnp.rowmajor([symnp.zint(i) for i in idx], list(sizes)))
 
+    def unrowmajor(self, g, sizes):
+        """the coordinate whose row-major position among dimensions of extents `sizes` is g"""
+        if len(sizes) == 1:
+            return [g]
+        return [symnp.mkint(t) for t in symnp.unrowmajor(symnp.zint(g), [symnp._raw(x) for x in sizes])]
+
     def sort_rank(self, arr):
         """rank[p] = position of element p in NumPy's argsort order (the inverse permutation of np.argsort)"""
         return symnp.argsort(arr).buf.tags["inverse"]
